@@ -174,7 +174,7 @@ STMTS = [
     ('{n} = (10, 20, 30)[{a}]',),
     ('{n} = "abcdef"[{a}]',),
     ('{n} = range({a})',),
-    ('{n} = dict(**{a})',),
+    ('{n} = dict(**{t})',),
     ('{n} = {{**{{1: {a}}}, 2: {b}}}',),
     ('{n} = [*{a}, {b}]',),
     ('{a} += {b}',),
